@@ -27,7 +27,7 @@ META = {
                           'trace_laws_checked', 'join_adds_objects'],
     'shards': {'quick': 16, 'thorough': 16},
     'exhaustive': {'quick': 'all tables <= 3x3 x all ordered pairs of concepts',
-                   'thorough': 'all tables <= 3x3, 3x4, 4x3 x all ordered pairs'},
+                   'thorough': 'all tables <= 3x3, 3x4, 4x3, 4x4 x all ordered pairs'},
     'assumptions': ['arguments that are not members of the receiving lattice are out of scope'],
 }
 
